@@ -49,6 +49,7 @@ func c20(c *Ctx) {
 	c20errorsRecorded(c)
 	c20verbatim(c)
 	c20zero(c)
+	c20requiredChildren(c)
 }
 
 // nodeish: *TokenNode, a type with a Format method from package ast, an interface of package ast, or a slice of those.
